@@ -80,14 +80,29 @@ func NewEndpoint(mode Mode) *Endpoint {
 
 // ReservedAddr returns a loopback address nothing listens on (bound once, then released).
 func ReservedAddr() string {
-	ln, err := net.ListenTCP("tcp", &net.TCPAddr{IP: net.IPv4(127, 0, 0, 1)})
-	if err != nil {
-		panic(err)
+	for {
+		ln, err := net.ListenTCP("tcp", &net.TCPAddr{IP: net.IPv4(127, 0, 0, 1)})
+		if err != nil {
+			panic(err)
+		}
+		a := ln.Addr().String()
+		ln.Close()
+		// the kernel may hand out a port again once it was released: two destinations of one route must never
+		// get the same address (same counter key, same ring node)
+		reservedMu.Lock()
+		dup := reserved[a]
+		reserved[a] = true
+		reservedMu.Unlock()
+		if !dup {
+			return a
+		}
 	}
-	a := ln.Addr().String()
-	ln.Close()
-	return a
 }
+
+var (
+	reservedMu sync.Mutex
+	reserved   = map[string]bool{}
+)
 
 // NewEndpointDown reserves an address but does not listen yet (connections are refused until Up).
 func NewEndpointDown(mode Mode) *Endpoint {
